@@ -13,7 +13,7 @@ LEVEL = "fault_enumeration"
 RULE = (
     "scenario = history with 1-5 generations and 0-3 nested histories (depth<=3); faults = every manifest of every history x "
     "edit kinds {flip bit at offset 0 / last byte / random offset, insert byte, delete byte, truncate to 0, truncate to half, "
-    "append newline, remove file, overwrite with another generation's bytes, move into a sub folder of ascmhl, edit while a pristine copy sits in a sub folder of ascmhl} plus removal of every chain file; each fault is followed by all eight commands (create, "
+    "append newline, one CR before one LF, LF->CRLF conversion, remove file, overwrite with another generation's bytes, move into a sub folder of ascmhl, edit while a pristine copy sits in a sub folder of ascmhl} plus removal of every chain file; each fault is followed by all eight commands (create, "
     "create -sf, verify, verify -dh, diff, info, info -sf, flatten); quick samples 3 edit kinds per manifest, thorough runs all; "
     "class = (command, edit kind, generation position first/middle/last, nesting depth of the damaged history)"
 )
@@ -23,7 +23,7 @@ ASSUMPTIONS = [
 ]
 MIN_DECIDING = {"fault_command_pairs": 500, "faults_injected": 60}
 
-EDITS = ["flip0", "fliplast", "fliprand", "insert", "delete", "trunc0", "trunchalf", "appendnl", "remove", "rollback", "moved", "shadowed"]
+EDITS = ["flip0", "fliplast", "fliprand", "insert", "delete", "trunc0", "trunchalf", "appendnl", "remove", "rollback", "moved", "shadowed", "cr1", "crlf"]
 CMDS = ["create", "create-sf", "verify", "verify-dh", "diff", "info", "info-sf", "flatten"]
 
 
@@ -49,6 +49,13 @@ def _edit(rng, data, kind):
         b = b[: len(b) // 2]
     elif kind == "appendnl":
         b += b"\n"
+    elif kind == "cr1":
+        # one carriage return in front of one line feed (what a text-mode transfer does to every line)
+        lf = [i for i, c in enumerate(b) if c == 10]
+        if lf:
+            b.insert(rng.choice(lf), 13)
+    elif kind == "crlf":
+        b = bytearray(bytes(b).replace(b"\r\n", b"\n").replace(b"\n", b"\r\n"))
     return bytes(b)
 
 
